@@ -7,7 +7,7 @@ CLAIMED = {
     "C01": dict(
         level="exploration", design="§6 C01",
         technique="deterministic simulation: real App::run + ThreadPool on humsim's in-memory TCP and virtual clock, reference HTTP clients with explicit stream segmentation, seeded schedules and network faults, reference connection model as oracle",
-        text="Seeded search over application configurations, client scripts (1..8 clients, 1..6 requests each over methods x targets x versions x Connection x bodies x malformed kinds x idle gaps), explicit segmentations of the byte stream (one byte per segment up to several requests per segment), lock-step and pipelined pacing, endings (close/half-close/RST/truncation), short reads/writes, slow readers, latency, and thread schedules. Oracle: strict response-stream grammar, count/order, version/Date/Server/CORS/Content-Length/body, keep-alive disposition and self-delimitation, 400/408 mapping with virtual-time lower bound, panic isolation, handler log = requests sent. Sampling: a clean batch is evidence, not proof. Later additions: a 150 000-byte response route, a CORS configuration whose list entries are substrings of earlier ones, the Date window anchored per request at the segment carrying its last byte, short writes in the tokio transport. Also: readers that stall for longer than the connection timeout while a large response is being written.",
+        text="Seeded search over application configurations, client scripts (1..8 clients, 1..6 requests each over methods x targets x versions x Connection x bodies x malformed kinds x idle gaps), explicit segmentations of the byte stream (one byte per segment up to several requests per segment), lock-step and pipelined pacing, endings (close/half-close/RST/truncation), short reads/writes, slow readers, latency, and thread schedules. Oracle: strict response-stream grammar, count/order, version/Date/Server/CORS/Content-Length/body, keep-alive disposition and self-delimitation, 400/408 mapping with virtual-time lower bound, panic isolation, handler log = requests sent. Sampling: a clean batch is evidence, not proof. Later additions: a 150 000-byte response route, a CORS configuration whose list entries are substrings of earlier ones, the Date window anchored per request at the segment carrying its last byte, short writes in the tokio transport. Also: readers that stall for longer than the connection timeout while a large response is being written. And: error handlers that return empty pages.",
         note="Trusted: humsim scheduler and TCP model (reliable ordered byte stream; close with unread data modelled as orderly FIN; server-side receive window >= one client script); the reference HTTP grammar; both runtimes: the threaded one under the humsim thread scheduler, the tokio one (twin phase C01T, engine humsim-tk) on a paused current_thread runtime over humsim::tokio_net."),
     "C02": dict(
         level="exploration", design="§6 C02",
@@ -37,7 +37,7 @@ CLAIMED = {
     "C12": dict(
         level="exploration", design="§6 C12",
         technique="deterministic simulation: the real AsyncWebsocketApp::run (poll loop, handler pool, front App, linked and unlinked) under the humsim scheduler with reference WebSocket clients, virtual-time poll intervals and heartbeat timeouts, partitioned (silent) peers, an external AsyncSender thread, shutdown signal",
-        text="Seeded scenarios of 1..8 clients (connect times, plain/unicast-requesting/broadcast-requesting messages incl. fragmented ones and bursts within one poll interval, pings, endings by Close / FIN / silence / staying), external unicasts and broadcasts, handler pools 1..8, poll 1..10 ms, heartbeat on/off, under seeded schedules. Oracle over the handler event log and each client's received frames: connect exactly once, every owed message dispatched exactly once, disconnect exactly once per closed client (Close frame or heartbeat timeout) and never for a live one, per-client order with a one-thread pool, unicast only to its addressee, broadcast never twice and exactly once to clients connected throughout, run returns within poll interval + 1 s of the shutdown signal. Later additions: no poll interval at all (fair schedules only), heartbeat timeouts of 1.5x and 2x the interval, slow-reading clients with 3..60 KB external messages, clients that close their socket outright (server writes then fail), a close landing on the heartbeat deadline, client pairs sharing an IP, per-run iteration order of the streams map. Also: a burst of 1200 messages in one write under a tight heartbeat. One silent ending in twenty happens in the middle of a message: that is the open known finding C12/R8 (the check prints KNOWN-FINDING and exits 0).",
+        text="Seeded scenarios of 1..8 clients (connect times, plain/unicast-requesting/broadcast-requesting messages incl. fragmented ones and bursts within one poll interval, pings, endings by Close / FIN / silence / staying), external unicasts and broadcasts, handler pools 1..8, poll 1..10 ms, heartbeat on/off, under seeded schedules. Oracle over the handler event log and each client's received frames: connect exactly once, every owed message dispatched exactly once, disconnect exactly once per closed client (Close frame or heartbeat timeout) and never for a live one, per-client order with a one-thread pool, unicast only to its addressee, broadcast never twice and exactly once to clients connected throughout, run returns within poll interval + 1 s of the shutdown signal. Later additions: no poll interval at all (fair schedules only), heartbeat timeouts of 1.5x and 2x the interval, slow-reading clients with 3..60 KB external messages, clients that close their socket outright (server writes then fail), a close landing on the heartbeat deadline, client pairs sharing an IP, per-run iteration order of the streams map. Also: a burst of 1200 messages in one write under a tight heartbeat. One silent ending in twenty happens in the middle of a message: that is the open known finding C12/R8 (the check prints KNOWN-FINDING and exits 0). And: Pongs between the fragments of a message.",
         note="Trusted: humsim scheduler/clock/TCP; iteration order of the streams map keyed per run from the entropy stream; a spinning poll loop (no interval) only under fair schedules; ordering asserted strictly only with one handler thread; messages of a client that closed its socket outright are owed at most once."),
     "C16": dict(
         level="exploration", design="§6 C16",
@@ -69,13 +69,13 @@ CLAIMED = {
 CLAIMED["C19"] = dict(
     level="exploration", design="§6 C19",
     technique="deterministic simulation: the whole humphrey_server::server::main from a generated Config on humsim's network, clients connecting from arbitrary IPv4/IPv6 source addresses (only a simulated network allows that), scripted upstream for proxy routes, cache warming histories, seeded schedules",
-    text="Seeded configurations (block/forbidden x list contents x file/directory/proxy/redirect routes x cache on/off x threads) and clients from chosen addresses sending keep-alive request sequences with X-Forwarded-For absent or naming listed/unlisted addresses. Oracle: listed peer in block mode never receives a byte; listed peer or listed forwarded origin in forbidden mode gets 403 and never the route's content whatever headers it sends; all-unlisted clients are served the exact file / directory file / upstream response / redirect. Later additions: sub-directory without/with trailing slash and a missing file on the directory route; IPv4 clients on a dual-stack [::] listener (peers seen as ::ffff:a.b.c.d). Also: forwarding chains of 31..200 entries.",
+    text="Seeded configurations (block/forbidden x list contents x file/directory/proxy/redirect routes x cache on/off x threads) and clients from chosen addresses sending keep-alive request sequences with X-Forwarded-For absent or naming listed/unlisted addresses. Oracle: listed peer in block mode never receives a byte; listed peer or listed forwarded origin in forbidden mode gets 403 and never the route's content whatever headers it sends; all-unlisted clients are served the exact file / directory file / upstream response / redirect. Later additions: sub-directory without/with trailing slash and a missing file on the directory route; IPv4 clients on a dual-stack [::] listener (peers seen as ::ffff:a.b.c.d). Also: forwarding chains of 31..200 entries. And: blacklist entries in IPv4-mapped spelling.",
     note="Trusted: humsim TCP (peer addresses are whatever the harness chooses); real std::fs on a scratch directory; a listed intermediate forwarding entry may be refused or served.")
 
 CLAIMED["C20"] = dict(
     level="exploration", design="§6 C20",
     technique="deterministic simulation: the real App::run with a shutdown receiver under the humsim scheduler, 0..16 connections scripted into chosen states at the virtual instant of the signal, pools incl. fully occupied ones, rendezvous and unbounded channels, unspecified bind addresses with the strict-connect knob, rebind after return",
-    text="Seeded traffic states at the instant of the signal (just connected, idle keep-alive, half-sent request, handler running 5 ms / 2 s, 150 KB response to a 512-byte-window reader, WebSocket open), signal before run / before the first connection / with traffic / with the pool occupied. Oracle: run returns Ok within 1 virtual second of the signal, the address can be bound again, a response that started arrives completely, requests fully sent >= 100 virtual ms before the signal are answered (detached workers keep running in the simulation). Later additions: the sender of the shutdown channel is kept alive until the scenario ends (a signal sent before run starts waiting must still end it). Also: applications whose connection condition refuses connections when the signal comes (drain mode / connection limit). And: 80..100 silent connections (one case in forty).",
+    text="Seeded traffic states at the instant of the signal (just connected, idle keep-alive, half-sent request, handler running 5 ms / 2 s, 150 KB response to a 512-byte-window reader, WebSocket open), signal before run / before the first connection / with traffic / with the pool occupied. Oracle: run returns Ok within 1 virtual second of the signal, the address can be bound again, a response that started arrives completely, requests fully sent >= 100 virtual ms before the signal are answered (detached workers keep running in the simulation). Later additions: the sender of the shutdown channel is kept alive until the scenario ends (a signal sent before run starts waiting must still end it). Also: applications whose connection condition refuses connections when the signal comes (drain mode / connection limit). And: 80..100 silent connections (one case in forty). And: listening on port 0; a second application in the same process.",
     note="Trusted: humsim scheduler/TCP/clock; threaded runtime (mpsc receiver) and, as twin phase C20T, the tokio runtime (CancellationToken).")
 
 NA = {
